@@ -2763,3 +2763,83 @@ func reachTo(fn *ssa.Function, b *ssa.BasicBlock) map[*ssa.BasicBlock]bool {
 	}
 	return seen
 }
+
+// ---------------------------------------------------------------------------
+// C09: a new coroutine's goroutine touches nothing before it is handed control
+// ---------------------------------------------------------------------------
+// `effects first-call NAME`: the first call the function makes (deferred calls,
+// which run at exit, excluded) is to NAME.  For the goroutine started by
+// Thread.Start, NAME is the receive of the resume values: until the resumer
+// hands control over, the goroutine runs concurrently with it and must not
+// touch the runtime (quota counters, pools, ...).
+
+func (g *EffGraph) firstCallObligations(prop string) []*EffObl {
+	var out []*EffObl
+	for _, ct := range g.eng.all {
+		if !ct.hasProp(prop) {
+			continue
+		}
+		for _, cl := range ct.byKind("effects") {
+			i := strings.Index(cl.Text, "first-call")
+			if i < 0 {
+				continue
+			}
+			want := strings.TrimSpace(cl.Text[i+len("first-call"):])
+			fn := g.eng.findFunc(ct.PkgPath, ct.Key)
+			if fn == nil {
+				if j := strings.LastIndex(ct.Key, "$"); j > 0 {
+					if parent := g.eng.findFunc(ct.PkgPath, ct.Key[:j]); parent != nil {
+						n := 0
+						fmt.Sscanf(ct.Key[j+1:], "%d", &n)
+						if n >= 1 && n <= len(parent.AnonFuncs) {
+							fn = parent.AnonFuncs[n-1]
+						}
+					}
+				}
+			}
+			o := &EffObl{Name: ct.PkgPath + "." + ct.Key + "/effect:first-call(" + want + ")", Kind: "effect",
+				Desc: "the first call made (deferred calls excluded) is " + want}
+			if fn == nil || len(fn.Blocks) == 0 {
+				o.Witness = "function not found"
+				out = append(out, o)
+				continue
+			}
+			o.Pos = relPos(g.eng, g.eng.fset.Position(fn.Pos()))
+			b := fn.Blocks[0]
+			found := ""
+			seen := map[*ssa.BasicBlock]bool{}
+		Walk:
+			for b != nil && !seen[b] {
+				seen[b] = true
+				for _, in := range b.Instrs {
+					switch x := in.(type) {
+					case *ssa.Defer, *ssa.MakeClosure:
+						continue
+					case *ssa.Go:
+						found = "go statement"
+						break Walk
+					case *ssa.Call:
+						if _, isB := x.Call.Value.(*ssa.Builtin); isB {
+							continue
+						}
+						found = calleeName(&x.Call)
+						break Walk
+					}
+				}
+				if len(b.Succs) == 1 {
+					b = b.Succs[0]
+				} else {
+					found = "(branch before any call)"
+					break
+				}
+			}
+			if found == want {
+				o.OK = true
+			} else {
+				o.Witness = "first call is " + found
+			}
+			out = append(out, o)
+		}
+	}
+	return out
+}
